@@ -122,6 +122,13 @@ func yamlOf(c *Cfg) string {
 // runWorld builds a world for plan p, starts the proxy from the plan's
 // configuration and hands control to body (kernel context).
 func runWorld(t *testing.T, p *Plan, body func(w *World)) *World {
+	return runWorldKeep(t, p, nil, body)
+}
+
+// runWorldKeep: with keep != nil the proxy is started by a harness copy of
+// startProxy's body that remembers the Proxy objects (in-package observation
+// of the pin table for C15's purge check); otherwise by the real startProxy.
+func runWorldKeep(t *testing.T, p *Plan, keep *[]*Proxy, body func(w *World)) *World {
 	w := &World{T: t, P: p, Stats: map[string]int{}, Prop: p.Prop,
 		conns: map[string]*simnet.TCPEnd{}, sinks: map[string]*simnet.TCPListener{}, udpActors: map[string]*simnet.UDPSock{}}
 	// environment read by the proxy
@@ -147,7 +154,7 @@ func runWorld(t *testing.T, p *Plan, body func(w *World)) *World {
 		for _, s := range p.Cfg.TCPSinks {
 			w.TCPSink(s)
 		}
-		w.startProxy(yamlOf(&p.Cfg))
+		w.startProxy(yamlOf(&p.Cfg), keep)
 		if w.StartErr == "" && !w.dead() {
 			body(w)
 		}
@@ -165,8 +172,9 @@ func setenv(k, v string) {
 	}
 }
 
-func (w *World) startProxy(yamlText string) {
+func (w *World) startProxy(yamlText string, keep *[]*Proxy) {
 	done := false
+	stopResolver := w.P.Cfg.Knobs["stopResolver"] == 1
 	w.K.Spawn("main", false, func() {
 		uuid.SetRand(simrt.Entropy{})
 		dynamicHostResolver = NewDynamicHostResolver(2)
@@ -178,10 +186,19 @@ func (w *World) startProxy(yamlText string) {
 		for _, proxy := range config.Proxies {
 			preConfigRoute := createPreConfigRoute(proxy)
 			resolver := createPreConfigHostResolver(config.Hosts, proxy)
-			if err := startProxy(proxy, preConfigRoute, resolver); err != nil {
+			if keep != nil {
+				err = startProxyKeep(proxy, preConfigRoute, resolver, keep)
+			} else {
+				err = startProxy(proxy, preConfigRoute, resolver)
+			}
+			if err != nil {
 				w.StartErr = "startProxy: " + err.Error()
 				return
 			}
+		}
+		if stopResolver {
+			// worlds without named backends let decades pass: the 2 s poll loop is switched off
+			dynamicHostResolver.Stop()
 		}
 		done = true
 	})
@@ -192,6 +209,34 @@ func (w *World) startProxy(yamlText string) {
 	if w.StartErr != "" {
 		w.K.Failures = append(w.K.Failures, "proxy start failed: "+w.StartErr+"\n"+yamlText)
 	}
+}
+
+// startProxyKeep is startProxy's body, keeping the Proxy objects.
+func startProxyKeep(config ProxyConfig, preConfigRoute *PreConfigRoute, resolver *PreConfigHostResolver, keep *[]*Proxy) error {
+	selfLearnRoute := NewSelfLearnRoute()
+	dialogTimeout := config.DialogTimeout
+	if dialogTimeout <= 0 {
+		dialogTimeout = getDefaultDialogTimeout()
+	}
+	var proxies []*Proxy
+	for _, listen := range config.Listens {
+		proxy := NewProxy(config.Name, int64(dialogTimeout), listen.Address, toKeepNextHopRoute(config.KeepNextHopRoute),
+			preConfigRoute, resolver, selfLearnRoute, !listen.NoReceived, listen.MustRecordRoute)
+		item, err := NewProxyItem(listen.Address, listen.UDPPort, listen.TCPPort, listen.BackendLocalAdress, listen.BackendLocalPort,
+			listen.Backends, listen.Dests, !listen.NoReceived, listen.defRoute, proxy, selfLearnRoute, proxy)
+		if err != nil {
+			return err
+		}
+		proxy.AddItem(item)
+		proxies = append(proxies, proxy)
+	}
+	for _, proxy := range proxies {
+		if err := proxy.Start(); err != nil {
+			return err
+		}
+	}
+	*keep = append(*keep, proxies...)
+	return nil
 }
 
 func (w *World) dead() bool {
